@@ -23,7 +23,7 @@ Definition expected_ok (ev : list te) (d : list xte) : bool :=
           | _ => match d with [x] => is_any (conv x) | _ => false end
           end
   | w :: l =>
-      match wordev_join_all w l, d with
+      match wordev_join_all_s w l, d with
       | Some j, [x] => te_eqb (conv x) (word_of j)
       | None, [x] => is_conflict (conv x)
       | _, _ => false
